@@ -193,6 +193,12 @@ def run_roundtrip(case, tape):
 # ---------------------------------------------------------------------------
 def gen_restart(rng):
     ckw = phys.gen_constants(rng, amplified=False)
+    if rng.random() < 0.4:
+        ckw['vMin'] = rng.choice([-5.0, -9.0, 0.0])        # a velocity domain that is not symmetric about 0
+    if rng.random() < 0.3:
+        ckw['rMin'] = rng.choice([0.5, 1.5])
+        ckw['zMin'] = rng.choice([-3.0, 2.0])
+        ckw['zMax'] = ckw['zMin'] + 100.0
     npts = ckw['npts']
     g1 = rng.choice(phys.admissible_grids(npts, 9))
     g2 = rng.choice(phys.admissible_grids(npts, 9))
@@ -301,6 +307,12 @@ def run_restart(case, tape):
                                                            diff=cm.first_diff(f.getAllData(), want)))
                 if list(constants.npts) != list(npts) or constants.dt != ckw['dt']:
                     raise OracleFail('restart-constants', dict(npts=list(constants.npts), dt=constants.dt))
+                g_ref, _ = phys.setup_f(comm, ckw, want_lay) if not plot else (None, None)
+                if g_ref is not None:
+                    for d_, (a_, b_) in enumerate(zip(f.eta_grid, g_ref.eta_grid)):
+                        if not cm.bits_equal(np.asarray(a_), np.asarray(b_)):
+                            raise OracleFail('restart-grid-differs', dict(dim=d_, why='the restarted grid does not live on the coordinates of the run that wrote the checkpoint',
+                                                                          got=[float(a_[0]), float(a_[-1])], want=[float(b_[0]), float(b_[-1])]))
                 # loadFromFile into the same grid: latest and explicit
                 lay_latest = case['writes'][final[tmax]]['layout']
                 if f.currentLayout != lay_latest:
@@ -455,6 +467,8 @@ def gen_driver(rng, tier):
     npts = [rng.randint(5, 6), rng.randint(5, 6), 7, rng.randint(5, 6)]
     ckw = phys.gen_constants(rng, amplified=True, npts=npts)
     ckw['eps'] = rng.choice([1e-2, 1e-1])
+    if rng.random() < 0.3:
+        ckw['vMin'] = rng.choice([-5.0, -9.0])            # not symmetric about 0: restarts must rebuild the same domain
     N = rng.randint(0, 4)
     Mm = rng.randint(0, 4)
     if N + Mm == 0:
